@@ -85,7 +85,8 @@ Proof. exact get_by_layout_path_lemma. Qed.
 Print Assumptions C19_get_by_layout_path.
 
 (** get_inventory with the id->path cache of the handle.  [reachable lay t c]:
-    the handle was opened and then used for any sequence of lookups and purges
+    the handle was opened and then used for any sequence of lookups (get_inventory,
+    or only the root path as in write_new_object / validate_object) and purges
     while objects were created and versions committed ([Keeps]: every existing
     object stays where it is); without layout every state a lookup or purge ran
     on was in the good class ([Good]: well formed, unique names, no id that
